@@ -32,6 +32,25 @@ PREFIX_OPS = {"str.len", "str.to.int", "str.prefixof", "str.suffixof", "str.cont
 PREC = {"str.++": 4, "*": 3, "div": 3, "mod": 3, "+": 2, "-": 2, "=": 1, ">=": 1, "<=": 1, ">": 1, "<": 1}
 
 
+def _written_names(f):
+    """every variable name that occurs in a sugared formula (binders, match-expression binds, references)"""
+    out = set()
+
+    def walk(x):
+        if isinstance(x, (list, tuple)):
+            if len(x) >= 2 and x[0] == "v" and isinstance(x[1], str):
+                out.add(x[1])
+            if len(x) >= 3 and x[0] == "bind" and isinstance(x[2], str):
+                out.add(x[2])
+            if len(x) >= 6 and x[0] in ("forall", "exists") and isinstance(x[2], str):
+                out.add(x[2])
+            for y in x:
+                walk(y)
+
+    walk(f)
+    return out
+
+
 class NotPinned(Exception):
     """the specification does not determine a translation for this sugared formula"""
 
@@ -296,8 +315,13 @@ class Desugarer:
         self.unprintable = False
 
     def fresh(self, p):
-        self.cnt += 1
-        return "%s%d" % (p, self.cnt)
+        # invented names avoid every name written in the sugared formula (a match-expression variable may well be
+        # called n1: nonterminals of random grammars are <n0>, <n1>, ...)
+        while True:
+            self.cnt += 1
+            name = "%s%d" % (p, self.cnt)
+            if name not in getattr(self, "taken", ()):
+                return name
 
     # -- steps 1-3
     def resolve(self, f, env):
@@ -630,6 +654,7 @@ class Desugarer:
     def run(self, F, fold=None, const_of=None):
         """returns the annotated translation (introduced quantifiers carry a 7th element ("intro", i))"""
         self.free = {}
+        self.taken = _written_names(F)
         f = self.resolve(F, {})
         for T in sorted(self.free, reverse=True):
             self.n_intro += 1
